@@ -783,17 +783,37 @@ impl TextOwn {
             self.struct_ok() && self.chars_ok() ==> ret.chars_ok(),
             // C15: no upper-case character is left
             forall|t: int| 0 <= t < ret.chars@.len() ==> !sp_upper(#[trigger] ret.chars@[t]), // [C15]
+            // C15 / C11: WHAT lower does: a text with an upper-case character has every character replaced by its lower-case form;
+            // a text without one is left alone
+            (exists|u: int| 0 <= u < self.chars@.len() && sp_upper(#[trigger] self.chars@[u])) ==> (forall|t: int| 0 <= t < ret.chars@.len() ==> #[trigger] ret.chars@[t] == sp_lower(self.chars@[t])), // [C15]
+            !(exists|u: int| 0 <= u < self.chars@.len() && sp_upper(#[trigger] self.chars@[u])) ==> ret.chars@ == self.chars@, // [C15]
     {
         broadcast use chx::ax_lower_class;
         let mut __self = self;
-        if __self.chars.iter().any(|ch| ch.is_uppercase()) {
-            let __end0 = __self.chars.len();
-            for __i0 in 0..__end0
-                invariant __end0 == __self.chars@.len(), __self.chars@.len() == self.chars@.len(), __self.source@ == self.source@, __self.classes@ == self.classes@, __self.words@ == self.words@,
-                    forall|t: int| 0 <= t < __i0 ==> #[trigger] __self.chars@[t] == sp_lower(self.chars@[t]),
-                    forall|t: int| __i0 <= t < __self.chars@.len() ==> #[trigger] __self.chars@[t] == self.chars@[t],
+        let mut __acc0: bool = false;
+        let mut __i0 = 0;
+        while __i0 < __self.chars.len()
+            invariant_except_break !__acc0,
+            invariant __i0 <= __self.chars@.len(), __self.chars@ == self.chars@,
+                forall|u: int| 0 <= u < __i0 ==> !sp_upper(#[trigger] self.chars@[u]),
+            ensures __acc0 <==> (exists|u: int| 0 <= u < self.chars@.len() && sp_upper(#[trigger] self.chars@[u])),
+            decreases __self.chars@.len() - __i0,
+        {
+            let ch = &__self.chars[__i0];
+            if ch.is_uppercase() {
+                __acc0 = true;
+                break;
+            }
+            __i0 += 1;
+        }
+        if __acc0 {
+            let __end1 = __self.chars.len();
+            for __i1 in 0..__end1
+                invariant __end1 == __self.chars@.len(), __self.chars@.len() == self.chars@.len(), __self.source@ == self.source@, __self.classes@ == self.classes@, __self.words@ == self.words@,
+                    forall|t: int| 0 <= t < __i1 ==> #[trigger] __self.chars@[t] == sp_lower(self.chars@[t]),
+                    forall|t: int| __i1 <= t < __self.chars@.len() ==> #[trigger] __self.chars@[t] == self.chars@[t],
             {
-                let ch = &mut __self.chars[__i0];
+                let ch = &mut __self.chars[__i1];
                 *ch = char_to_lower(*ch, *ch);
             }
         }
